@@ -77,6 +77,77 @@ def run_ops(ops):
     return im
 
 
+def concurrent_saves(base):
+    import asyncio
+    import os
+
+    from aiomysensors.model.node import Node
+    from aiomysensors.persistence import Persistence
+    from props.c16 import InlineExecutor
+
+    fs, n = [], 0
+    for inline in (True, False):
+        loop = asyncio.new_event_loop()
+        if inline:
+            loop.set_default_executor(InlineExecutor())
+        for nn in (2, 3, 6):
+            for delay in range(0, 4):
+                for grow in (False, True):
+                    n += 1
+                    nodes = {i: Node(i, 17, "2.0") for i in range(1, nn + 1)}
+                    for nd in nodes.values():
+                        nd.add_child(0, 6)
+                    path = os.path.join(base, f"conc{n}.json")
+                    p = Persistence(nodes, path)
+                    states = [reg_plain(nodes)]
+                    window = [0, 0]
+
+                    async def traffic():
+                        j = 0
+                        while True:
+                            # what the message handlers do between two suspension points of save
+                            nd = nodes[1 + j % nn]
+                            nd.battery_level = (nd.battery_level + 1) % 100
+                            nd.children[0].values[0] = f"{20 + j}.5"
+                            if grow and j % 3 == 2:
+                                nodes[100 + j] = Node(100 + j, 17, "2.0")
+                            j += 1
+                            states.append(reg_plain(nodes))
+                            await asyncio.sleep(0)
+
+                    async def main():
+                        t = asyncio.get_running_loop().create_task(traffic())
+                        for _ in range(delay):
+                            await asyncio.sleep(0)
+                        window[0] = len(states) - 1
+                        try:
+                            await p.save()
+                        finally:
+                            window[1] = len(states)
+                            t.cancel()
+
+                    try:
+                        loop.run_until_complete(main())
+                    except Exception as e:  # noqa: BLE001
+                        fs.append({"kind": "oracle", "sig": "C13:concurrent-save", "desc": f"save of {nn} nodes while messages change the registry raised {type(e).__name__}: {e}", "case": {"nodes": nn, "delay": delay, "grow": grow}})
+                        continue
+                    loaded: dict = {}
+                    try:
+                        loop.run_until_complete(Persistence(loaded, path).load())
+                        got = reg_plain(loaded)
+                    except Exception as e:  # noqa: BLE001
+                        got = type(e).__name__
+                    if got not in states[window[0]: window[1] + 1]:
+                        fs.append({"kind": "oracle", "sig": "C13:torn-snapshot",
+                                   "desc": f"save of {nn} nodes while messages change the registry (one change per loop iteration, save started after {delay} iterations): the file holds none of the {window[1] - window[0] + 1} states the registry was in during the save (battery levels in the file {[v['battery_level'] for v in got.values()] if isinstance(got, dict) else got})",
+                                   "case": {"nodes": nn, "delay": delay, "grow": grow, "inline_executor": inline}})
+        loop.close()
+    seen = {}
+    for f in fs:
+        seen.setdefault(f["sig"], f)
+    return list(seen.values()), n
+
+
 def run(ctx, model_available=True):
     rng = rng_for(ctx.seed, "C13")
     files = Files()
@@ -224,6 +295,12 @@ def run(ctx, model_available=True):
                                  "case": {"ops": ops, "scenario": scenario}})
         im.close()
     dist["persistence_sessions"] = sessions
+    # a save while messages keep changing the registry (same event loop): the file must
+    # hold ONE state the registry was in while save ran (the model's dump is a function
+    # of one registry value: the snapshot is taken in one synchronous step)
+    cf, cn = concurrent_saves(files.dir)
+    failures.extend(cf)
+    dist["saves_with_concurrent_changes"] = cn
     # the two fixtures of the repository's own tests
     import glob
 
@@ -245,7 +322,7 @@ def run(ctx, model_available=True):
         "distribution": dist,
         "failures": list(seen.values()),
         "exhaustive": False,
-        "assumptions": ["json.dumps / json.loads round trip the value (text layer not modelled)", "Node.reboot is not part of the persisted state (not listed by the property)"],
+        "assumptions": ["json.dumps / json.loads round trip the value (text layer not modelled)", "save snapshots the registry in one synchronous step (checked: saves racing registry changes on one event loop)", "Node.reboot is not part of the persisted state (not listed by the property)"],
     }
 
 
